@@ -116,6 +116,14 @@ class RLESeq:
         return f"<rle {'tuple' if self.is_tuple else 'list'} {self.segments!r} x {self.times!r}>"
 
 
+class Ready:
+    """an awaitable that never suspends: awaiting it yields `value` (or raises `exc`) immediately"""
+
+    def __init__(self, value=None, exc=None):
+        self.value = value
+        self.exc = exc
+
+
 class SymRange:
     """range(start, stop) with symbolic bounds (step 1); stop None = unbounded (itertools.count)"""
 
